@@ -121,3 +121,24 @@ Section ShellPair.
     fold_left (fun acc l => if mask l then fold_left (fun acc m => acc +! t2 l m) (zrange l) acc else acc)
               (seq 0 L) (if mask L && negb noType1 then t1 else n0 o).
 End ShellPair.
+
+(* ECPIntegral::type2's dispatch for one angular momentum lam of the ECP and one pair of Cartesian functions:
+     both shells on the centre -> closed form; one on the centre -> rolled_up_special with the OTHER shell's harmonics
+     (for B on the centre the roles are exchanged and the radial table is read transposed); none -> the generated class
+     Q(min, max, lam), i.e. rolled_up called with the lower angular momentum first (for LA > LB the shells are exchanged
+     and the result is copied back transposed).  radq / radg: the radial tables as the library stores them in the
+     respective branch.  No proofs here. *)
+Section Dispatch.
+  Context {T : Type} (o : NumOps T).
+  Variable pi : T.
+  Variable Om : nat -> nat -> nat -> nat -> Z -> nat -> Z -> T.
+  Variable gamma : nat -> T.
+  Definition pair_t2 (onA onB : bool) (LA LB : nat) (primsA primsB : list (T * T)) (primsU : list (Z * nat * T * T))
+             (SA SB : nat -> Z -> T) (radq radg : nat -> nat -> nat -> T)
+             (lam : nat) (fa fb : nat * nat * nat) (A B : T * T * T) (mu : Z) : T :=
+    if onA && onB then t2_both o pi Om gamma lam LA LB primsA primsB primsU fa fb mu
+    else if onA then rolled_up_special o pi Om SB radq lam fa fb B mu
+    else if onB then rolled_up_special o pi Om SA (fun N l1 l2 => radq N l2 l1) lam fb fa A mu
+    else if LA <=? LB then rolled_up o pi Om SA SB radg lam fa fb A B mu
+    else rolled_up o pi Om SB SA radg lam fb fa B A mu.
+End Dispatch.
